@@ -225,3 +225,122 @@ func WithAnon(f *ssa.Function, fn func(*ssa.Function)) {
 		WithAnon(a, fn)
 	}
 }
+
+// CondPol is a branch condition together with the polarity under which a block is reached.
+type CondPol struct {
+	Cond ssa.Value
+	Pol  bool
+	If   *ssa.If
+}
+
+// ControllingConds returns every (condition, polarity) whose branch edge dominates block b:
+// b executes only if each of them evaluated that way.
+func ControllingConds(b *ssa.BasicBlock) []CondPol {
+	var out []CondPol
+	for d := b.Idom(); d != nil; d = d.Idom() {
+		if len(d.Instrs) == 0 {
+			continue
+		}
+		ifi, ok := d.Instrs[len(d.Instrs)-1].(*ssa.If)
+		if !ok {
+			continue
+		}
+		t, f := d.Succs[0], d.Succs[1]
+		if t == f {
+			continue
+		}
+		if EdgeDominates(d, t, b) {
+			out = append(out, normCond(ifi.Cond, true, ifi))
+		} else if EdgeDominates(d, f, b) {
+			out = append(out, normCond(ifi.Cond, false, ifi))
+		}
+	}
+	return out
+}
+
+// normCond strips logical negations.
+func normCond(c ssa.Value, pol bool, ifi *ssa.If) CondPol {
+	for {
+		u, ok := c.(*ssa.UnOp)
+		if !ok || u.Op != token.NOT {
+			break
+		}
+		c = u.X
+		pol = !pol
+	}
+	return CondPol{c, pol, ifi}
+}
+
+// IsNilCompare: c is `x == nil` / `x != nil`; returns x and whether "true" means non-nil.
+func IsNilCompare(c ssa.Value) (x ssa.Value, trueMeansNonNil bool, ok bool) {
+	b, isb := c.(*ssa.BinOp)
+	if !isb || (b.Op != token.EQL && b.Op != token.NEQ) {
+		return nil, false, false
+	}
+	isNil := func(v ssa.Value) bool {
+		k, ok := v.(*ssa.Const)
+		return ok && k.Value == nil
+	}
+	switch {
+	case isNil(b.Y):
+		x = b.X
+	case isNil(b.X):
+		x = b.Y
+	default:
+		return nil, false, false
+	}
+	return x, b.Op == token.NEQ, true
+}
+
+// IntConst returns the int64 value of a constant operand.
+func IntConst(v ssa.Value) (int64, bool) {
+	for {
+		switch x := v.(type) {
+		case *ssa.Convert:
+			v = x.X
+			continue
+		case *ssa.ChangeType:
+			v = x.X
+			continue
+		}
+		break
+	}
+	c, ok := v.(*ssa.Const)
+	if !ok || c.Value == nil || c.Value.Kind() != constant.Int {
+		return 0, false
+	}
+	return c.Int64(), true
+}
+
+// Reaches reports whether block `to` is reachable from block `from` (inclusive).
+func Reaches(from, to *ssa.BasicBlock) bool {
+	seen := map[*ssa.BasicBlock]bool{}
+	var walk func(b *ssa.BasicBlock) bool
+	walk = func(b *ssa.BasicBlock) bool {
+		if b == to {
+			return true
+		}
+		if seen[b] {
+			return false
+		}
+		seen[b] = true
+		for _, s := range b.Succs {
+			if walk(s) {
+				return true
+			}
+		}
+		return false
+	}
+	return walk(from)
+}
+
+// CallsIn lists the call instructions (call, defer, go) of f whose static callee is fn.
+func CallsIn(f *ssa.Function, fn *ssa.Function) []ssa.CallInstruction {
+	var out []ssa.CallInstruction
+	AllInstrs(f, func(in ssa.Instruction) {
+		if c, ok := CallTo(in, fn); ok {
+			out = append(out, c)
+		}
+	})
+	return out
+}
